@@ -162,6 +162,18 @@ func emit(ss []Stmt) []byte {
 			out = append(out, wb.Cat(wb.LocalGet(lP), i32c(s.B), wb.Op(wasm.OpcodeI32Add), wb.LocalSet(lTmp))...)
 		case "settmpx":
 			// tmp := p <op> B with 32-bit wrap-around (shl / mul / add / sub)
+			if s.Op == "wrap" || s.Op == "wrapadd" {
+				// tmp := i32.wrap_i64(x) where x is a 64-bit value whose UPPER half is not zero at run time:
+				// wrap: x = extend_u(p) | (B|1)<<32 (tmp = p); wrapadd: x = extend_u(p) + ((B|1)<<32 + 16) (tmp = p + 16).
+				// An i32 made by truncation must not carry the upper half into a 64-bit address computation.
+				hi := int64(uint64(s.B|1) << 32)
+				if s.Op == "wrap" {
+					out = append(out, wb.Cat(wb.LocalGet(lP), wb.Op(wasm.OpcodeI64ExtendI32U), wb.I64Const(hi), wb.Op(wasm.OpcodeI64Or), wb.Op(wasm.OpcodeI32WrapI64), wb.LocalSet(lTmp))...)
+				} else {
+					out = append(out, wb.Cat(wb.LocalGet(lP), wb.Op(wasm.OpcodeI64ExtendI32U), wb.I64Const(hi+16), wb.Op(wasm.OpcodeI64Add), wb.Op(wasm.OpcodeI32WrapI64), wb.LocalSet(lTmp))...)
+				}
+				continue
+			}
 			opc := map[string]byte{"shl": wasm.OpcodeI32Shl, "mul": wasm.OpcodeI32Mul, "add": wasm.OpcodeI32Add, "sub": wasm.OpcodeI32Sub}[s.Op]
 			if opc == 0 {
 				hx.Fatal("bad settmpx op %q", s.Op)
@@ -404,6 +416,10 @@ func (r *ref) exec(ss []Stmt) int {
 				r.tmp = r.lp + s.B
 			case "sub":
 				r.tmp = r.lp - s.B
+			case "wrap":
+				r.tmp = r.lp
+			case "wrapadd":
+				r.tmp = r.lp + 16
 			}
 		case "settmp":
 			r.tmp = r.lp + s.B
